@@ -17,6 +17,7 @@ STRUCT_KINDS = ["reset_after_whfast", "ias15_reset", "remove_all", "shrink_zero_
                 "same_time", "negzero"]
 K_F1 = "F1:vanished-array-old-size"
 K_F11 = "F11:index-time-when-t-equals-t0"
+K_F19 = "F19:index-builder-trusts-field-size"
 
 
 def vstr(v):
@@ -49,10 +50,21 @@ def probe_variant(c, rebound, wd):
     sa = rebound.Simulationarchive(fn, process_warnings=False)
     ts = [sa.t[i] for i in range(sa.nblobs)]
     f11 = (len(ts) == 3 and ts[1] == t5)
+    # F19 probe: a well-formed archive whose second blob carries a 16-byte 't' record: the fixed reader rejects
+    # the blob (1 snapshot), the current one reads 16 bytes into an 8-byte slot (harmless here: slot 1 of 1024)
+    fn3 = os.path.join(wd, "p3.bin")
+    b = open(fn, "rb").read()
+    blobs = ac.parse_archive(b)
+    first = b[:blobs[0]["end"] - 12]
+    delta = struct.pack("<IIQ", 0, 0, 16) + struct.pack("<dd", 7.0, 8.0)
+    img = first + struct.pack("<iii", 0, 0, len(delta) + 16) + delta + struct.pack("<IIQ", ac.END, 0, 0) + struct.pack("<iii", 1, len(delta) + 16, 0)
+    open(fn3, "wb").write(img)
+    sa3 = rebound.Simulationarchive(fn3, process_warnings=False)
+    f19 = (sa3.nblobs == 1)
     if not f11:
         c.violation(K_F11, "index times of snapshots taken at t=%r,%r,... are %r" % (t5, t5, ts),
                     dict(ops="integrate(5); save; G=2; save; 3 steps; save", index_t=ts))
-    return (f1, f11, False)
+    return (f1, f11, False, f19)
 
 
 def first_diff(a, b):
@@ -113,7 +125,7 @@ def run(c):
 def _run(c, rebound, exe, W):
     v = probe_variant(c, rebound, os.path.join(W, "probe"))
     V = vstr(v)
-    c.cov["source_variant"] = {"F1_fixed": v[0], "F11_fixed": v[1]}
+    c.cov["source_variant"] = {"F1_fixed": v[0], "F11_fixed": v[1], "F19_fixed": v[3]}
     c.log("source behaves as model variant", V)
     nh = 2500 if c.thorough else 260
     maxapp = 25 if c.thorough else 10
@@ -134,7 +146,7 @@ def _run(c, rebound, exe, W):
                       "delta law stated for an exact comparison and, for any comparison, up to what it calls 'same'"]
     stats = dict(histories=0, appends=0, bytes_equal=0, index_equal=0, snapshots_decoded=0, child_crash=0, skipped_ops=0,
                  vanish_histories=0, appear_histories=0, shrink_zero=0, same_t0=0, auto_histories=0, auto_snapshots=0,
-                 lagging=0, eq_checked=0, fieldwise_checked=0, link_true=0, merges=0, nocapture=0)
+                 lagging=0, reader_overflow=0, model_undefined=0, eq_checked=0, fieldwise_checked=0, link_true=0, merges=0, nocapture=0)
     integ_hist = {}
     hazards = {}
     kinds_hist = {}
@@ -152,7 +164,7 @@ def _run(c, rebound, exe, W):
             ss = " ".join(os.path.join(wd, "s%d.bin" % k) for k in range(n))
             lines.append("arch %s %s %s" % (V, os.path.join(wd, "model.bin"), ss)); owners.append((h, "arch", None))
             lines.append("open %s %s" % (V, os.path.join(wd, "arch.bin"))); owners.append((h, "open", None))
-            nb = meta["back"].get("nblobs", 0) or 0
+            nb = (meta["back"].get("nblobs", 0) or 0) if not meta["back"].get("error") else 0
             for k in range(nb):
                 lines.append("snap %s %s %d %s" % (V, os.path.join(wd, "arch.bin"), k, os.path.join(wd, "m%d.bin" % k)))
                 owners.append((h, "snap", k))
@@ -178,6 +190,10 @@ def _run(c, rebound, exe, W):
                     c.corr_break("diffRaw and encFs(diffF(parse)) disagree inside the model (history %d)" % h["i"], dict(history=h["hist"], driver=o[:300]))
             elif kind == "open":
                 back = meta["back"]
+                if o.startswith("undefined"):
+                    stats["model_undefined"] += 1     # the real reader is out of bounds here (F19): nothing to compare
+                    h["undefined"] = True
+                    continue
                 if back.get("error"):
                     want = "ERR"
                 else:
@@ -193,6 +209,8 @@ def _run(c, rebound, exe, W):
                     stats["index_equal"] += 1
             else:
                 lp, mp = os.path.join(wd, "l%d.bin" % k), os.path.join(wd, "m%d.bin" % k)
+                if h.get("undefined"):
+                    continue
                 if not o.startswith("ok") or not os.path.exists(lp):
                     c.corr_break("model cannot decode snapshot %d which the real loader decodes (history %d)" % (k, h["i"]), dict(history=h["hist"], driver=o))
                     continue
@@ -200,6 +218,10 @@ def _run(c, rebound, exe, W):
                 mrecs, _ = ac.parse_records(open(mp, "rb").read() + struct.pack("<IIQ", ac.END, 0, 0), 0)
                 a, b = ac.canon(rl), ac.canon(mrecs)
                 a.pop(87, None); b.pop(87, None)
+                # descriptor-level coupling the payload model does not carry: loading a particles record sets N
+                pm = ac.rec_value(mrecs, ac.PARTICLES)
+                if pm is not None:
+                    b[ac.N_ID] = struct.pack("<I", len(pm) // ac.PSIZE)
                 dd = ac.diff_canon(a, b)
                 if dd:
                     c.corr_break("snapshot %d decoded by the model differs from the real loader in ids %s (history %d)" % (k, dd[:6], h["i"]), dict(history=h["hist"], ids=dd))
@@ -252,7 +274,9 @@ def _run(c, rebound, exe, W):
         # (a) count: every append is a readable snapshot
         nb_real = back.get("nblobs", 0) if not back.get("error") else 0
         limit = n
-        if len(blobs) != n or nb_real != n:
+        if str(back.get("error", "")).startswith("reader died"):
+            limit = 0       # reported when it happened
+        elif len(blobs) != n or nb_real != n:
             if firstvan is not None and min(len(blobs), nb_real) >= firstvan and not v[0]:
                 c.violation(K_F1, "archive exposes %d of %d snapshots after a persisted array vanished" % (nb_real, n), rep)
             else:
@@ -264,7 +288,9 @@ def _run(c, rebound, exe, W):
             if back["offset"][k] != blobs[k]["off"]:
                 c.violation("offset:%s" % key[0], "index offset of snapshot %d is %d, blob starts at %d" % (k, back["offset"][k], blobs[k]["off"]), rep)
             if back["t"][k] != tk[::-1].hex():
-                if k > 0 and tk == t0 and back["t"][k] == "0" * 16 and not v[1]:
+                if firstvan is not None and k >= firstvan and not v[0]:
+                    c.violation(K_F1, "index time of snapshot %d (after a persisted array vanished) is wrong" % k, rep)
+                elif k > 0 and tk == t0 and back["t"][k] == "0" * 16 and not v[1]:
                     c.violation(K_F11, "index time of snapshot %d taken at t0=%r is reported as 0" % (k, struct.unpack("<d", tk)[0]), rep)
                 else:
                     c.violation("time:%s" % key[0], "index time of snapshot %d is %s, live time was %s" % (k, back["t"][k], tk[::-1].hex()), rep)
@@ -284,7 +310,9 @@ def _run(c, rebound, exe, W):
                 except ac.FormatError:
                     pass
             stats["fieldwise_checked"] += 1
-            if dd or dl:
+            if (dd or dl) and firstvan is not None and k >= firstvan and not v[0]:
+                c.violation(K_F1, "snapshot %d, written after a persisted array vanished, differs from the live state in field ids %s" % (k, dd[:8]), rep)
+            elif dd or dl:
                 ids = sorted(set(dd) | set(x for x in dl if isinstance(x, int)))
                 szero = False
                 if ids == [ac.PARTICLES] and os.path.exists(lp):
@@ -300,7 +328,9 @@ def _run(c, rebound, exe, W):
             e = back["eq"][k] if k < len(back.get("eq", [])) else None
             if meta["appends"][k]["selfeq"] and e is not None:
                 stats["eq_checked"] += 1
-                if not e:
+                if not e and firstvan is not None and k >= firstvan and not v[0]:
+                    c.violation(K_F1, "loaded snapshot %d (after a persisted array vanished) != the kept copy" % k, rep)
+                elif not e:
                     c.violation("eq:%s" % key[0], "loaded snapshot %d != the copy of the live state kept at save time" % k, rep)
         # (d) automatic cadence
         if hist["auto"]:
@@ -328,13 +358,30 @@ def _run(c, rebound, exe, W):
         mp = os.path.join(wd, "meta.json")
         stats["histories"] += 1
         integ_hist[hist["init"]["integrator"]] = integ_hist.get(hist["init"]["integrator"], 0) + 1
-        if rc != 0 or not os.path.exists(mp):
+        bp = os.path.join(wd, "back.json")
+        if os.path.exists(mp) and not os.path.exists(bp):
+            # the history ran, the real reader died (or hung) on the archive the real writer produced
+            prog = "readback"
+            mo = run_driver(exe, ["open %s %s" % (V, os.path.join(wd, "arch.bin"))])[0]
+            rep = dict(history=hist, rc=rc, model_open=mo)
+            if mo.startswith("undefined"):
+                stats["reader_overflow"] += 1
+                c.violation(K_F19, "opening the archive the writer produced kills the process (rc %s): a garbled blob (F1) makes the index "
+                            "builder fread a 't' field with the size found in the file into an 8-byte slot" % rc, rep)
+            else:
+                stats["child_crash"] += 1
+                c.violation("crash:readback", "real reader died (rc %s) on an archive written by the real code; model says %s" % (rc, mo[:80]), rep)
+            meta = json.load(open(mp))
+            meta["back"] = dict(error="reader died rc %s" % rc, nblobs=0, t=[], offset=[], eq=[])
+            json.dump(meta, open(mp, "w"))
+            json.dump(meta["back"], open(bp, "w"))
+        if not os.path.exists(mp):
             # the real code died / hung while executing a history: an output.  Only a death inside an archive
-            # operation (snapshot, automatic cadence, read-back) concerns C06; elsewhere it is a hazard of the
+            # operation (snapshot, automatic cadence) concerns C06; elsewhere it is a hazard of the
             # generated op (counted, history dropped)
             prog = open(os.path.join(wd, "progress")).read() if os.path.exists(os.path.join(wd, "progress")) else "?"
             opn = prog.split()[-1]
-            if opn in ("snap", "readback", "auto_interval", "auto_step") or (opn == "integrate" and rc != -14):
+            if opn in ("snap", "auto_interval", "auto_step") or (opn == "integrate" and rc != -14):
                 stats["child_crash"] += 1
                 c.violation("crash:%s" % opn, "real code died (rc %s) during '%s'" % (rc, prog), dict(history=hist, progress=prog))
             else:
@@ -343,6 +390,7 @@ def _run(c, rebound, exe, W):
             hi += 1
             continue
         meta = json.load(open(mp))
+        meta["back"] = json.load(open(bp))
         stats["skipped_ops"] += len(meta["skipped"])
         stats["merges"] += len([e for e in meta["events"] if isinstance(e, str) and e.startswith("merge")])
         nocap = any(a.get("nocapture") for a in meta["appends"])
